@@ -25,7 +25,7 @@ static void run() {
     bool T = a.thorough();
     vp::stats().rule = "enum: per (transport, memory width, block size; octet sources, chunk sources, chunk sources lending a 2..64-octet buffer through the getbuffer extension): valid write requests of every total length from capacity-20 to capacity+20; read requests with every block size from the "
                        "transmit limit -8 to +8; allocation failure at every allocation (single and pairs) of multi-frame streams; empty frames and frames of 1..11 octets; every truncation point of "
-                       "a multi-frame stream; invalid SLIP escapes / over-long varint prefixes inside streams; random mutated streams; oracle = reference stream walker + per-frame expectations "
+                       "a multi-frame stream; invalid SLIP escapes / over-long varint prefixes inside streams; every frame type x option bits x block size x payload length form in blocks the frame fills exactly (+-1); random mutated streams; oracle = reference stream walker + per-frame expectations "
                        "(access count and arguments, resource replies, error ids), allocation ledger, ASan/UBSan, endpoint-call budget";
     vp::Rng rng(a.seed * 19001 + a.shard);
     uint64_t idx = 0;
@@ -96,6 +96,20 @@ static void run() {
             }
         }
     }
+    // (6) every frame type x option-bit combination x block size x payload length around what the block size announces, received into a
+    //     block that the frame fills exactly (and one octet more / less): whatever the verdict, nothing outside the block may be touched
+    for (int serial = 0; serial < 2; serial++) for (int mem16 = 0; mem16 < 2; mem16++) for (int type : {0, 1, 2, 3, 15}) for (int opt = 0; opt < 8; opt++)
+        for (uint32_t bs : {0u, 1u, 2u, 3u, 4u, 6u, 8u, 16u}) for (int form = 0; form < 4; form++) for (int fit = -1; fit <= 1; fit++) {
+            if (!mine()) continue;
+            rp::Frame f; f.type = type; f.options = opt; f.meta = type == 15 ? 1 : (type == 1 || type == 3) ? (int)(bs % 12) : 0; f.seq = (uint16_t)(bs * 257 + opt); f.addr = 0x6000 + bs; f.blocksize = bs;
+            // payload length: as many octets as the block size counts words / as it counts octets / twice that / four octets (error responses)
+            size_t plen = form == 0 ? (size_t)bs * ((opt & 1) ? 2 : 1) : form == 1 ? (size_t)bs : form == 2 ? (size_t)bs * 2 : 4;
+            f.payload = payload(plen, bs + (unsigned)opt);
+            Bytes raw = rp::encode(f);
+            if (raw.size() + (size_t)(fit + 1) < 2) continue;
+            Config cfg{(bool)serial, (bool)mem16, (int)(bs % 3 == 2 ? 5 : bs % 2), raw.size() - 1 + (size_t)fit, 0};   // capacity = block_extra + 1
+            run_case(cfg, rp::on_wire(serial, raw), "all-types-and-options-in-exact-fit-blocks");
+        }
     // random mutated streams
     size_t nrand = (T ? 400000 : 40000) / a.nshards;
     for (size_t i = 0; i < nrand && !vp::too_many_failures(); i++) {
